@@ -1245,6 +1245,15 @@ where
         let num_betas = fri_proof.commit_phase_commits.len();
         let num_queries = fri_proof.query_proofs.len();
 
+        // One beta per commit-phase commitment: fewer challenges means the proof's
+        // commit-phase lists (commitments vs. PoW witnesses) disagree in length.
+        if challenges.len() != 1 + num_betas {
+            return Err(VerificationError::InvalidProofShape(format!(
+                "expected {} FRI challenges for {num_betas} commit-phase commitments, got {}",
+                1 + num_betas,
+                challenges.len()
+            )));
+        }
         let alpha = challenges[0];
         let betas = &challenges[1..1 + num_betas];
 
